@@ -679,7 +679,14 @@ where
                 self.absorb_bytes(&out)?;
                 Ok(Outcome::Accepted)
             }
-            Err(BridgeError::ProcessResponse(_)) => Ok(Outcome::Rejected),
+            Err(BridgeError::ProcessResponse(_)) => {
+                // rejected: the request can no longer be resolved (consumer ended, notification), so
+                // it is not outstanding any more and the bridge is free to forget it and reuse its id
+                if let Some(v) = self.ids.remove(&key) {
+                    self.consumed.insert(key, v);
+                }
+                Ok(Outcome::Rejected)
+            }
             Err(e) => Err(format!("bridge rejected a valid response: {e}")),
         }
     }
